@@ -91,7 +91,7 @@ PROPS = {
              "victim connection while a bystander must be served within 1.5 s and the process must stay alive",
              partial="stack/heap limits of the Go runtime and loops inside the ~120 handlers are not modelled as Panic/Diverge sites; the handler side is covered by the hostile-input stream only",
              assumptions=["a malformed line wedges only the connection that sent it (the emulator treats 'malformed' as 'incomplete'); this is recorded in PropC13.v as C13_malformed_head_wedges and is outside 'well-formed command'"]),
-    "C02": P(["PropC02", "PropC02Lcs"], ["C02"],
+    "C02": P(["PropC02", "PropC02Lcs", "PropC02Fnum"], ["C02"],
              "string/counter commands: theorems on the model (overflow test = mathematical overflow, MSETNX all-or-nothing, GETRANGE/SETRANGE "
              "specifications, SET option table, decimal text round trip, errors leave the db unchanged) + correspondence of every reply and of the "
              "visible state after random histories over the family",
@@ -100,7 +100,7 @@ PROPS = {
              "list commands: theorems on the model (index normalisation vs a Redis-style spec, push/pop equations, LMOVE same-key rotation and "
              "conservation, LREM/LINSERT/LPOS specifications, never-empty, errors inert) + correspondence over random histories",
              assumptions=SEQ_ASSUME),
-    "C04": P(["PropC04", "PropC17"], ["C04", "C17"],
+    "C04": P(["PropC04", "PropC17", "PropC02Fnum"], ["C04", "C17"],
              "hash commands: theorems on the model (hash is a finite map, HINCRBY iff-characterisation for every sign combination, HDEL, reads "
              "pure, HRANDFIELD candidates); the bucket table under every hash is Dict.v (growth and shrink never lose or duplicate a field: PropC17 dictionary layer) "
              "+ correspondence of replies and of the table layout (real hashes, crafted bucket collisions)",
@@ -138,7 +138,7 @@ PROPS = {
              "WATCH: every observable change of a key changes the version EXEC compares (all commands of the table), reads and failed commands "
              "change nothing, EXEC runs iff no watched version changed + correspondence of WATCH scenarios with every write command on either connection",
              assumptions=SEQ_ASSUME),
-    "C14": P(["PropC14"], ["C14"],
+    "C14": P(["PropC14"], ["C14", "C14B"],
              "databases and sessions: a command touches only the selected database, session fields are private to a connection, SELECT range, "
              "FLUSHDB exact / FLUSHALL all + correspondence with three connections, SELECT/FLUSH*/DBSIZE interleaved with data commands",
              assumptions=SEQ_ASSUME),
